@@ -140,7 +140,9 @@ def strat():
     cfg = CFG
     sel = st.one_of(st.none(), st.fixed_dictionaries({'pick': st.integers(0, 50), 'extra': st.booleans()}),
                     st.fixed_dictionaries({'pick': st.integers(0, 50), 'extra': st.just(False)}),
-                    gen.specs(cfg, 1, 2), st.just([]))
+                    gen.specs(cfg, 1, 2), st.just([]),
+                    st.sampled_from([[{'k': 'str', 'v': ''}], [{'k': 'list', 'v': []}], [{'k': 'str', 'v': ';'}], [{'k': 'tuple', 'v': [{'k': 'str', 'v': ''}]}],
+                                     [{'k': 'str', 'v': ''}, {'k': 'str', 'v': ';;'}]]))
     return st.fixed_dictionaries({'p': gen.progs(cfg), 'sel': sel, 'a': gen.idx(), 'b': gen.idx()})
 
 
